@@ -19,9 +19,18 @@ claimed = {
  "C04": dict(
    text="Algebraic slot model: real genEvaluationKey / AddPolyTimesGadgetVector, GadgetProduct (RNS digits with 0, 1 or several auxiliary primes; power-of-two digits of several widths incl. primes just above a power of two), ModDown and ApplyEvaluationKey executed from SSA with all ciphertext, key, mask and error coefficients free atoms; Dec_{s_out}(out) - Dec_{s_in}(in) must reduce to error/rounding terms for every key parameterisation of the harness (key LevelQ/LevelP below maximum, ciphertext level below key level, NTT and coefficient domain). Digits enter through contracts (RNS digit = input on its own limbs; power-of-two digits recombine over all digits needed to cover the bit length). Ring-degree switching / ring packing and numeric noise bounds are outside.",
    ref="DESIGN.md §6-C04, §4.3", technique="SSA symbolic execution in the algebraic slot model + SMT (LIA) on the normalised identities; native replay on realistic-size primes"),
+ "C05": dict(
+   text="Algebraic slot model of the real bgv.Evaluator: Add/Sub (equal and different scales, through the real matchScalesBinary), Mul, MulRelin, Relinearize, Rescale on ciphertexts whose coefficients, keys and key-switch errors are atoms; the phase identities phi_out = phi_0 +- phi_1, T*phi_0*phi_1 (up to key-switch noise), q_L*phi_out = phi_in - delta, the scale bookkeeping modulo t, level/degree and the documented failure conditions are decided per limb. Scales and scalar operands are concrete residues; vector operands/encoder and the scale-invariant (BFV) tensoring are outside for now.",
+   ref="DESIGN.md §6-C05", technique="SSA symbolic execution in the algebraic slot model + SMT (LIA) on the normalised identities"),
+ "C06": dict(
+   text="Ring-level algebraic slot model of the real ckks.Evaluator (Add, Sub, Mul, MulRelin, Rescale): phase identities per limb with atoms for all coefficients and exact scale/level bookkeeping (big.Float as exact reals). Numeric precision, vector/complex scalar operands and the floating-point encoder are outside (not encodable).",
+   ref="DESIGN.md §6-C06", technique="SSA symbolic execution in the algebraic slot model + SMT (LIA) on the normalised identities"),
  "C08": dict(
    text="Stream-level symbolic execution of the real (de)serialisation code (ring.Poly through structs.Matrix/Vector and utils/buffer): round trip with all payload words symbolic through WriteTo/ReadFrom and MarshalBinary/UnmarshalBinary into fresh and reused receivers, announced size, every truncation point, corrupted length fields (classes small / negative / huge) with the allocation obligation on every symbolic make.",
    ref="DESIGN.md §6-C08", technique="SSA symbolic execution of the codecs over symbolic byte streams + SMT (BV); path forking on stream-dependent branches; native replay"),
+ "C09": dict(
+   text="For the bgv evaluator's binary operations (Add, Sub, Mul, MulRelin, MulRelinThenAdd; equal and different scales): every operand is compared coefficient-wise (atoms) before and after the call, the operation is repeated with the output aliased to the first and to the second operand and into an output object that previously held a larger-degree ciphertext, and the results must be identical polynomials / decrypt identically; big.Int scalar operands must be unchanged.",
+   ref="DESIGN.md §6-C09", technique="SSA symbolic execution in the algebraic slot model (exact polynomial identity of outputs across aliasing patterns) + SMT (LIA)"),
  "C19": dict(
    text="Symbolic execution of rlwe.CheckModuli with a symbolic candidate modulus and an arbitrary primality oracle (solver characterises every accepted size), plus boundary witnesses (real primes) checked against the 61-bit size the arithmetic layer supports (8q<=2^64, from the C01 stage invariants).",
    ref="DESIGN.md §6-C19", technique="SSA symbolic execution + SMT (BV) over the acceptance predicates; concrete boundary witnesses replayed natively"),
